@@ -304,7 +304,17 @@ type bfsCase struct {
 }
 
 // runBFS drives engine E1 for one property and fills the evidence.
-func runBFS(c *ev.Ctx, newWorld func(root string) bfs.World, roots []string, depth, maxStates int) {
+func runBFS(c *ev.Ctx, newWorld func(root string) bfs.World, allRoots []string, depth, maxStates int) {
+	if c.ReplayCase == nil {
+		// one shard (process) per root: the seams' globals (virtual clock, registries) are per process
+		c.Set("bound", fmt.Sprintf("all histories of length <= %d over the alphabet from each of %d roots", depth, len(allRoots)))
+		c.Sharded(len(allRoots), 8, func(i int) { runBFSShard(c, newWorld, allRoots[i:i+1], depth, maxStates) })
+		return
+	}
+	runBFSShard(c, newWorld, allRoots, depth, maxStates)
+}
+
+func runBFSShard(c *ev.Ctx, newWorld func(root string) bfs.World, roots []string, depth, maxStates int) {
 	if c.ReplayCase != nil {
 		var k bfsCase
 		json.Unmarshal(c.ReplayCase, &k)
@@ -360,15 +370,12 @@ func runBFS(c *ev.Ctx, newWorld func(root string) bfs.World, roots []string, dep
 			}
 		},
 	})
-	c.Set("states", res.States)
-	c.Set("transitions", res.Transitions)
-	c.Set("depth_completed", res.DepthCompleted)
-	c.Set("closed_under_alphabet", res.Closed)
-	c.Set("frontier_left", res.FrontierLeft)
-	c.Set("roots", len(roots))
-	c.Set("traces_validated_against_impl", res.Transitions)
+	c.AddCov("states", int64(res.States))
+	c.AddCov("transitions", int64(res.Transitions))
+	c.AddCov("traces_validated_against_impl", int64(res.Transitions))
+	c.ShardInfo(map[string]any{"roots": roots, "states": res.States, "transitions": res.Transitions, "depth_completed": res.DepthCompleted,
+		"closed_under_alphabet": res.Closed, "frontier_left": res.FrontierLeft})
 	if res.Capped != "" {
 		c.Cap(res.Capped)
 	}
-	c.Set("bound", fmt.Sprintf("all histories of length <= %d over the alphabet from every root (exhaustive within this bound; closed_under_alphabet tells whether the reachable space was exhausted)", res.DepthCompleted))
 }
